@@ -92,7 +92,7 @@ def _observe(xml: str) -> dict:
         _EV["events"].clear()
         c0 = time.process_time()
         try:
-            arm_cpu(10 * budget + 2.0)
+            arm_cpu(2 * budget + 2.0)
             o1 = f(t1)
         except Exception as e:
             ob["exc"] = type(e).__name__
@@ -171,13 +171,12 @@ def work(case: dict) -> dict:
     e0 = _EV["evals"]
     if case["mode"] == "trees":
         items = []
-        hangs = 0
         for it in case["items"]:
-            if hangs >= 3:          # do not burn the whole budget on a converter that no longer terminates
+            if _EV.get("hangs", 0) >= 3:    # do not burn the whole budget on a converter that no longer terminates
                 items.append({"i": it["i"], "not_run": True})
                 continue
             ob = _observe(it["xml"])
-            hangs += 1 if ob.get("hang") else 0
+            _EV["hangs"] = _EV.get("hangs", 0) + (1 if ob.get("hang") else 0)
             ob["i"] = it["i"]
             items.append(ob)
         return {"items": items, "evals": _EV["evals"] - e0, "rebinds": _EV["rebinds"]}
@@ -576,6 +575,8 @@ def main(run):
             continue
         evals += ob["evals"]
         rebinds = ob["rebinds"] if rebinds is None else min(rebinds, ob["rebinds"])
+        if any(it.get("hang") or it.get("not_run") for it in ob["items"]):
+            _dbg(f"batch first={case['items'][0]['i']} hang={sum(1 for it in ob['items'] if it.get('hang'))} not_run={sum(1 for it in ob['items'] if it.get('not_run'))} cpu={ob.get('cpu_s')}")
         for it in ob["items"]:
             if it.get("not_run"):
                 run.count("trees_not_run_after_hangs")
@@ -689,7 +690,11 @@ def main(run):
 
     # ------------------------------------------------------------------ integration: formulas inside docx / pptx
     _dbg("probes done")
-    integ = _integration(run, O, pool, core, specs, meta, obs, integ_pool, tok)
+    if hangs:
+        run.count("integration_skipped_after_hangs")
+        integ = 0
+    else:
+        integ = _integration(run, O, pool, core, specs, meta, obs, integ_pool, tok)
     _dbg("integration done")
     evals += integ
 
